@@ -33,6 +33,7 @@ type verifAuthHandler struct {
 	outcome *verifAuthOutcome
 	calls   int
 	gens    int
+	lastGen *auth.Rec // the record the last token was asked for
 }
 
 func (a *verifAuthHandler) Init(jsonconf json.RawMessage, name string) error { return nil }
@@ -59,6 +60,8 @@ func (a *verifAuthHandler) IsUnique(secret []byte, remoteAddr string) (bool, err
 }
 func (a *verifAuthHandler) GenSecret(rec *auth.Rec) ([]byte, time.Time, error) {
 	a.gens++
+	cp := *rec
+	a.lastGen = &cp
 	return []byte("secret"), time.Time{}, nil
 }
 func (a *verifAuthHandler) DelRecords(uid types.Uid) error    { return nil }
